@@ -2,7 +2,8 @@
 import ast
 from fractions import Fraction
 
-from sa import own, cov, nf, astutil as U
+from sa import own, cov, nf, roles, astutil as U
+from sa.roles import Canon
 from sa.loader import norm_text, dotted
 from sa.selftest import Mutant
 
@@ -225,12 +226,23 @@ def rounding(ctx, mi):
          'steps_per_second is %r, not steps_per_quarter*qpm/60' % (got,), construct='steps_per_quarter * qpm / 60')
 
 
+def _rel_canon(ctx):
+  fi = ctx.func(SL + ':quantize_note_sequence')
+  return Canon(fi, roles.discover(fi, {
+      'steps_per_second': lambda fn: roles.assigned_where(fn, lambda v, st: isinstance(v, ast.Call) and (dotted(v.func) or '').endswith('steps_per_quarter_to_steps_per_second')),
+      'qns': lambda fn: roles.assigned_where(fn, lambda v, st: isinstance(v, ast.Call) and dotted(v.func) == 'copy.deepcopy'),
+  }))
+
+
 def call_sites(ctx):
+  rel_canon = _rel_canon(ctx)
   sites = []
   for m in ctx.P.modules.values():
     if m.name in ctx.TEST_SUPPORT:
       continue
     for fi in m.all_functions.values():
+      if fi.fq == rel_canon.fq:
+        fi = rel_canon
       for c in U.calls_in(fi.node):
         if (dotted(c.func) or '').split('.')[-1] == 'quantize_to_step':
           sites.append((fi, c))
@@ -256,7 +268,7 @@ def call_sites(ctx):
            'resolution operand is %s' % (norm_text(c.args[1]) if len(c.args) > 1 else None))
   ctx.require(len(sites) >= 5, 'only %d quantize_to_step call sites found' % len(sites))
   # steps_per_second of the relative entry point
-  fi = ctx.func(SL + ':quantize_note_sequence')
+  fi = rel_canon
   defs = [st for st in U.walk_stmts(fi.node) if isinstance(st, ast.Assign) and isinstance(st.targets[0], ast.Name) and st.targets[0].id == 'steps_per_second']
   ok = len(defs) == 1 and isinstance(defs[0].value, ast.Call) and dotted(defs[0].value.func) == 'steps_per_quarter_to_steps_per_second' and \
       len(defs[0].value.args) == 2 and norm_text(defs[0].value.args[0]) == 'steps_per_quarter' and norm_text(defs[0].value.args[1]).endswith('tempos[0].qpm')
@@ -264,7 +276,7 @@ def call_sites(ctx):
          'steps_per_second = f(steps_per_quarter, the single tempo)' if ok else 'steps_per_second of the relative quantizer is not derived from steps_per_quarter and the single tempo',
          construct='steps_per_second = steps_per_quarter_to_steps_per_second(steps_per_quarter, tempos[0].qpm)')
   for name in ('quantize_note_sequence', 'quantize_note_sequence_absolute'):
-    f2 = ctx.func(SL + ':' + name)
+    f2 = rel_canon if name == 'quantize_note_sequence' else ctx.func(SL + ':' + name)
     qn = [c for c in U.calls_in(f2.node) if dotted(c.func) == '_quantize_notes']
     ok = len(qn) == 1 and len(qn[0].args) == 2 and norm_text(qn[0].args[1]) == 'steps_per_second'
     ctx.ob('SITE/notes-resolution', f2, qn[0] if qn else f2.node, ok, 'notes are quantized at the same steps_per_second as total_time' if ok else
@@ -457,3 +469,6 @@ MUTANTS = [
            also=[(F, "def _is_power_of_2(x):", "def _bad_numerator(qns):\n  raise BadTimeSignatureError(\n      'Numerator is 0. Time signature: %d/%d' %\n      (qns.time_signatures[0].numerator, qns.time_signatures[0].denominator))\n\n\ndef _is_power_of_2(x):")]),
     Mutant('steps per second written as a product of reciprocals', F, '  return steps_per_quarter * qpm / 60.0', '  return qpm / 60.0 * steps_per_quarter', expect='silent'),
 ]
+
+RENAME_FUNCS = [(F, n) for n in ('quantize_to_step', 'steps_per_quarter_to_steps_per_second', '_quantize_notes', 'quantize_note_sequence',
+                                 'quantize_note_sequence_absolute', '_is_power_of_2')]
